@@ -1,7 +1,7 @@
 (** Dispatch table of the correspondence checks: property number, then the
     lab kind tag that leads every case input. *)
 From Coq Require Import List ZArith Bool.
-From TR Require Import Lib.Sx Run.C12 Run.Eng Run.Doc Run.Pol Run.Drv Run.Par Run.Iso Run.Life.
+From TR Require Import Lib.Sx Run.C12 Run.Eng Run.Doc Run.Pol Run.Drv Run.Par Run.Iso Run.Life Run.Kern.
 Import ListNotations.
 Open Scope Z_scope.
 
@@ -17,5 +17,6 @@ Definition check (prop : Z) (inp impl : sx) : sx :=
        | 8 | 9 | 10 | 11 | 12 => check_par prop inp impl
        | 13 | 14 => check_iso prop inp impl
        | 15 | 16 => check_life prop inp impl
+       | 17 => check_kern prop inp impl
        | _ => badcase
        end.
